@@ -139,6 +139,12 @@ class Scn:
         self.closed = "stop" if stop else (self.closed or "close")
 
 
+def cap_size(n, high, chunk):
+    """keep the number of system calls of one operation below a few thousand"""
+    per = max(1, min(high, chunk))
+    return min(n, max(3000, 400 * per)) if per < 2048 else n
+
+
 def read_lengths(rng, chunk, low, high):
     c = [0, 1, 2, rng.range(3, 300), rng.range(300, 20000), chunk - 1, chunk, chunk + 1, 2 * chunk + 3]
     for v in (low, high):
@@ -209,6 +215,7 @@ def gen_read(rng, sid, big):
             if eof:
                 want = rng.range(0, max(0, want - 1))
         marks = [m for m in (low, high, s.chunk, min(high, s.chunk)) if 0 < m < 400000]
+        want = cap_size(want, high, s.chunk)
         for n in pieces_for(rng, want, marks):
             s.add("pw %d" % n)
             fed_total += n
@@ -225,6 +232,8 @@ def gen_read(rng, sid, big):
         ln = rng.choice(read_lengths(rng, s.chunk, low, high))
         if big and k == 0:
             ln = rng.choice([1 << 20, (1 << 20) + 1, (1 << 20) - 1, 700001])
+        if ln != SMAX:
+            ln = cap_size(ln, high, s.chunk)
         if rng.chance(1, 8) and k:
             s.water(pick_water(rng, s.chunk))
         i = s.op(False, ln, hs=rng.choice([0, 0, 0, 300]))
@@ -286,6 +295,7 @@ def gen_write(rng, sid, big):
         sz = rng.choice(sizes)
         if big and k == 0:
             sz = rng.choice([1 << 20, (1 << 20) + 1, 900001])
+        sz = cap_size(sz, high, s.chunk)
         s.op(True, sz, hs=rng.choice([0, 0, 300]), frags=frag_sizes(rng, sz, s.chunk), woff=woff)
         woff += sz
         if rng.chance(1, 4):
@@ -311,11 +321,13 @@ def gen_file(rng, sid):
     if rng.chance(1, 2):
         s.kind = "file_r"
         size = rng.choice([0, 1, rng.range(2, 5000), s.chunk, s.chunk + 1, 3 * s.chunk - 1, rng.range(5000, 300000)])
+        wat = pick_water(rng, s.chunk)
+        size = cap_size(size, eff_params(s.chunk, wat)[1], s.chunk)
         s.rbase = rng.range(0, 1 << 20)
         s.fsize = size
         s.add("fd file_r %d %d" % (size, s.rbase))
         s.add("chan")
-        s.water(pick_water(rng, s.chunk))
+        s.water(wat)
         left = size
         for k in range(rng.choice([1, 2, 3])):
             low, high = eff_params(s.chunk, s.setters)
@@ -334,6 +346,7 @@ def gen_file(rng, sid):
         woff = rng.range(0, 1 << 20)
         for k in range(rng.choice([1, 2, 3])):
             sz = rng.choice([0, 1, rng.range(2, 3000), s.chunk - 1, s.chunk + 1, 2 * s.chunk + 7, rng.range(3000, 200000)])
+            sz = cap_size(sz, eff_params(s.chunk, s.setters)[1], s.chunk)
             s.op(True, sz, hs=0, frags=frag_sizes(rng, sz, s.chunk), woff=woff)
             woff += sz
             if rng.chance(1, 4):
@@ -475,7 +488,7 @@ def judge(s, ev, base):
                      (tag, [(h["done"], h["size"], h["err"]) for h in hs], len(ns)))
         if final["err"] == ECANCELED and close_seq > final["seq"]:
             fail("canceled_after_close", "%s reports ECANCELED although the channel was not closed" % tag)
-        if final["err"] != ECANCELED:
+        if final["err"] != ECANCELED and o["length"] > 0:     # zero-length operations never reach the stream (io.c:1063)
             done_order.append((o["write"], i, final["seq"]))
         if not o["write"]:
             if moved > o["length"]:
